@@ -11,10 +11,12 @@ import (
 	"errors"
 	"fmt"
 	"io"
+	"net"
 	"net/http"
 	"runtime"
 	"sort"
 	"strings"
+	"sync"
 
 	gortsplib "github.com/bluenviron/gortsplib/v5"
 	"github.com/bluenviron/gortsplib/v5/pkg/base"
@@ -1689,4 +1691,108 @@ func main() {
 	prefixDomain(ctx)
 	malformedDomain(ctx)
 	b64Domain(ctx)
+	tunnelWriterDomain(ctx)
+}
+
+// ---------- the real write half of the client's HTTP tunnel (verif hook) ----------
+
+// captureConn records every Write of the tunnel on its POST connection.
+type captureConn struct {
+	net.Conn
+	mu     sync.Mutex
+	blocks [][]byte
+}
+
+func (c *captureConn) Write(p []byte) (int, error) {
+	b := append([]byte(nil), p...)
+	c.mu.Lock()
+	c.blocks = append(c.blocks, b)
+	c.mu.Unlock()
+	return len(p), nil
+}
+
+// tunnelWriterDomain: (1) sequentially, clientTunnelHTTP.Write emits exactly one padded base64 block per write (what the
+// carrier cases above assume); (2) the client writes on one tunnel from two routines (requests from its main routine,
+// interleaved frames from the writer routine): every block on the wire is the encoding of exactly one written message,
+// none altered, none missing - whatever the interleaving.
+func tunnelWriterDomain(ctx *hx.Ctx) {
+	r := ctx.Rng
+	for i, n := 0, ctx.Budget(40, 400); i < n; i++ {
+		cc := &captureConn{}
+		w := gortsplib.VerifNewClientTunnelHTTPWriter(cc)
+		var writes [][]byte
+		for k := r.Range(1, 6); k > 0; k-- {
+			b := r.Bytes(hx.Pick(r, 0, 1, 2, 3, 4, 57, 58, 59, r.Intn(400), r.Intn(70000)))
+			writes = append(writes, b)
+			if _, err := w.Write(b); err != nil {
+				ctx.Failf(-1, "tunnel-write-error", fmt.Sprint(len(b)), "clientTunnelHTTP.Write failed: %v", err)
+			}
+		}
+		ctx.Eval()
+		var got []byte
+		for _, b := range cc.blocks {
+			got = append(got, b...)
+		}
+		if !bytes.Equal(got, b64Blocks(writes)) || len(cc.blocks) != len(writes) {
+			ctx.Failf(-1, "tunnel-writer-not-one-block-per-write", fmt.Sprint(len(writes)), "clientTunnelHTTP.Write: %d writes left as %d blocks, bytes differ from one padded base64 block per write", len(writes), len(cc.blocks))
+		}
+	}
+	old := runtime.GOMAXPROCS(4)
+	defer runtime.GOMAXPROCS(old)
+	for round, rounds := 0, ctx.Budget(6, 60); round < rounds; round++ {
+		cc := &captureConn{}
+		w := gortsplib.VerifNewClientTunnelHTTPWriter(cc)
+		routines := r.Range(2, 3)
+		per := ctx.Budget(1500, 6000)
+		want := map[string]int{}
+		msgs := make([][][]byte, routines)
+		for g := range msgs {
+			for k := 0; k < per; k++ {
+				// routine 0: requests (text), the others: interleaved frames; every message is distinct
+				var b []byte
+				if g == 0 {
+					b = []byte(fmt.Sprintf("OPTIONS rtsp://h/p RTSP/1.0\r\nCSeq: %d\r\nSession: %d\r\n\r\n", k, round))
+				} else {
+					b = append([]byte{'$', byte(2 * g), 0, 12, byte(g), byte(k >> 8), byte(k), byte(round)}, r.Bytes(8+k%40)...)
+				}
+				msgs[g] = append(msgs[g], b)
+				want[base64.StdEncoding.EncodeToString(b)]++
+			}
+		}
+		var wg sync.WaitGroup
+		for g := range msgs {
+			wg.Add(1)
+			go func(g int) {
+				defer wg.Done()
+				for _, b := range msgs[g] {
+					w.Write(b) //nolint:errcheck
+				}
+			}(g)
+		}
+		wg.Wait()
+		ctx.Eval()
+		ctx.Nontrivial(fmt.Sprintf("tunnel-concurrent %d %d", routines, round))
+		bad := 0
+		first := ""
+		for _, b := range cc.blocks {
+			k := string(b)
+			if want[k] > 0 {
+				want[k]--
+			} else {
+				bad++
+				if first == "" {
+					first = k
+					if len(first) > 80 {
+						first = first[:80]
+					}
+				}
+			}
+		}
+		if bad != 0 || len(cc.blocks) != routines*per {
+			ctx.Failf(-1, "tunnel-concurrent-writes-altered", fmt.Sprintf("routines=%d per=%d", routines, per),
+				"%d routines wrote %d messages each on one HTTP tunnel: %d of the %d blocks on the wire are not the encoding of a written message (first: %q)",
+				routines, per, bad, len(cc.blocks), first)
+			break
+		}
+	}
 }
